@@ -264,6 +264,8 @@ LIB_METHODS: Dict[str, Callable[[List[Kinds]], Set[str]]] = {
     "endswith": dyn_only("TypeError"),
     "lower": const(),
     "upper": const(),
+    "strip": const(), "lstrip": const(), "rstrip": const(), "title": const(), "removeprefix": const(), "removesuffix": const(),
+    "capitalize": const(), "zfill": const(), "find": const(), "count": const(), "isdigit": const(), "isidentifier": const(),
     "split": const(),
     "splitlines": const(),
     "join": const(),
@@ -323,5 +325,7 @@ SLOT_EFFECTS: Dict[str, Dict[str, Set[str]]] = {
 LIB_METHOD_RETURNS: Dict[str, str] = {
     "startswith": "bool", "endswith": "bool", "isoweekday": "int", "weekday": "int", "toordinal": "int",
     "timestamp": "float", "total_seconds": "float", "astimezone": "datetime", "encode": "bytes", "decode": "str",
-    "lower": "str", "upper": "str", "strftime": "str",
+    "lower": "str", "upper": "str", "strftime": "str", "strip": "str", "lstrip": "str", "rstrip": "str", "replace": "str",
+    "title": "str", "format": "str", "join": "str", "removeprefix": "str", "removesuffix": "str", "capitalize": "str", "zfill": "str",
+    "find": "int", "index": "int", "count": "int", "isdigit": "bool", "isidentifier": "bool",
 }
